@@ -3,7 +3,7 @@ import copy, itertools, re
 import boot
 from lib import wire
 
-TABLES = ['T03']
+TABLES = ['T03', 'T04']
 RULE = ('(i) glob matcher: pattern x hostmask pairs, exhaustive up to length 3 (quick) / 4 (thorough) over the alphabet '
         '{a,A,[,{,\\,|,^,~,*,?,!,@,.} plus random long ones, real ircutils.hostmaskPatternEqual vs extracted model; '
         '(ii) state machine: random histories (register/setUser with glob masks, delUser, identify = addAuth + setUser as every '
@@ -12,11 +12,21 @@ RULE = ('(i) glob matcher: pattern x hostmask pairs, exhaustive up to length 3 (
         'model step from a snapshot of the real state (so set-iteration order is an input) and the resulting state/return value '
         'diffed; direct oracle after every lookup: recognised only through own mask or live login, never two accounts, equals the '
         'cache-free recomputation; after every accepted setUser: no two accounts own masks matching one hostmask of the pool. '
-        'non-trivial = distinct (state, op) step with at least one user')
+        '(iii) command layer: the histories interleave real User plugin commands (hostmask add/remove, identify, unidentify, changename, '
+        'register) sent as private messages through a live bot (Owner, Misc, Config, User loaded) with the API operations; every command '
+        'is one step of the model (run_cmd) from a snapshot of the real state, with passwords / owner flag / syntax checks observed from '
+        'the real run as inputs; which except clause catches what around users.setUser is regenerated from plugins/User/plugin.py (table '
+        'T04, fail-closed); direct oracle: after every refused command (no "The operation succeeded") the accounts (name, masks, secure, '
+        'unexpired logins) are compared with the snapshot taken before it; after every accepted hostmask add / register no two accounts own '
+        'masks matching one hostmask of the pool.  non-trivial = distinct (state, op) step with at least one user')
 TRUSTED = ["Python's re for the atoms the translator emits (differentially tested against the model matcher)",
            're.I is modelled for ASCII letters only (generators use ASCII + non-cased characters)',
            'the reverse index of _hostmaskCache and the _nameCache are not modelled (forward cache compared after every step)',
-           'CacheDict eviction (1000 entries) is outside the explored histories']
+           'CacheDict eviction (1000 entries) is outside the explored histories',
+           'command layer: callbacks dispatch, commands.wrap converters, password hashing and the capability check are exercised through '
+           'the live bot but enter the model as inputs (which account <name> resolves to is modelled; checkPassword / owner capability / '
+           'isUserHostmask / unWildcardHostmask results are observed); commands whose lookups hit the Multiple-matches branch are compared '
+           'on the ambiguity flag only']
 ASSUMPTIONS = ['hostmasks contain no LF; plugins call setUser after mutating a stored account (API discipline): in particular a login is '
                'addAuth followed by setUser, which is where the repaired code drops the cache entries of the login hostmask']
 EXPLANATION = 'C04: glob matcher + user lookup state machine; theorems in coq/C04/Props.v'
@@ -32,7 +42,11 @@ LEVEL_TEXT = ('Coq theorems over an executable Gallina model of the hostmask glo
               'against the extracted model + exhaustive '
               'small-alphabet matcher comparison against the real regex translation.')
 LEVEL_NOTE = ('Trusted: Coq kernel, extraction + driver, harness; Python re for the emitted atoms (tested), ASCII-only re.I, forward-only '
-              'cache model, name cache not modelled; clock and timeout are explicit inputs.')
+              'cache model, name cache not modelled; clock and timeout are explicit inputs.  Command layer: a refused User plugin command '
+              'leaves the accounts as they were (C04_refused_command_no_trace, on the domain: no ambiguous lookup; hostmask add of a mask '
+              'nobody owns yet, any refusal; other commands, refusals that do not come out of users.setUser: finding F23 outside), an '
+              'accepted hostmask add keeps the coherence invariant; dispatcher and converters are modelled as lookups of the sender and '
+              'of the <name> argument only; passwords, capabilities and syntax checks are oracle inputs.')
 TECHNIQUE = 'Coq proof (induction on patterns; invariant over operation histories) + per-step refinement check against the real objects'
 
 ALPHA = ['a', 'A', '[', '{', '\\', '|', '^', '~', '*', '?', '!', '@', '.']
@@ -112,7 +126,7 @@ def wire_op(o):
     return [5, o[1]]
 
 
-def apply_real(mods, users, o):
+def apply_real(mods, users, o, hostmasks=None):
     ircdb, conf, ircutils = mods
     k = o[0]
     try:
@@ -124,9 +138,12 @@ def apply_real(mods, users, o):
             if obj is None:
                 obj = ircdb.IrcUser()
                 obj.id = i
+                obj.setPassword(PASSWORD)
             old = (obj.name, obj.hostmasks, obj.secure)
             obj.name = name
-            obj.hostmasks = ircutils.IrcSet(masks)
+            # the very set object whose iteration order was recorded in the op (rebuilding it can iterate differently
+            # when two masks collide in the hash table)
+            obj.hostmasks = hostmasks if hostmasks is not None else ircutils.IrcSet(masks)
             obj.auth = [(w, m) for w, m in auth]
             obj.secure = secure
             try:
@@ -139,7 +156,11 @@ def apply_real(mods, users, o):
             users.delUser(o[1])
             return ('ok', 0)
         if k == 'new':
-            return ('ok', users.newUser().id)
+            u = users.newUser()
+            u.setPassword(PASSWORD)
+            if len(o) > 1 and o[1] == 'owner':
+                u.addCapability('owner')
+            return ('ok', u.id)
         if k == 'auth':                 # identify: what every caller of addAuth does (User.identify, GPG, NickAuth)
             obj = users.users[o[1]]
             obj.addAuth(o[2])
@@ -155,6 +176,171 @@ def apply_real(mods, users, o):
     raise AssertionError(o)
 
 
+# ---------- the command layer: a live bot with the User plugin ----------
+_BOT = {}
+PASSWORD, WRONG = 'secret', 'wrong'
+NAMES = ['u1', 'u2', 'u3', 'u4', 'nobody', 'fresh', 'Fresh2']
+CMD_KINDS = ['add', 'remove', 'identify', 'unidentify', 'changename', 'register']
+CMD_MASKS = MASKS + ['*!*@*', 'nomask', 'q!q@q', 'n[ck!u@h']
+
+
+class _Driver:
+    def reconnect(self, *a, **k):
+        pass
+
+    def die(self):
+        pass
+
+
+def _deny(*a, **k):
+    raise OSError(101, 'Network is unreachable (verification harness)')
+
+
+def bot():
+    if _BOT:
+        return _BOT
+    ircdb, conf, ircutils = _mods()
+    import socket
+    socket.getaddrinfo = _deny
+    socket.create_connection = _deny
+    socket.socket.connect = _deny
+    import warnings
+    warnings.simplefilter('ignore')
+    import supybot.httpserver as httpserver
+    httpserver.startServer = lambda: None
+    import supybot.irclib as irclib, supybot.ircmsgs as ircmsgs, supybot.plugin as plugin, supybot.world as world
+    assert world.testing is False
+    conf.supybot.abuse.flood.command.setValue(False)
+    conf.supybot.abuse.flood.command.invalid.setValue(False)
+    irc = irclib.Irc('test')
+    irc.driver = _Driver()
+    _BOT.update(irc=irc, ircmsgs=ircmsgs)
+    _drain()
+    for n in ('Owner', 'Misc', 'Config', 'User'):
+        plugin.loadPluginClass(irc, plugin.loadPluginModule(n))
+    for l in (':server 001 test :Welcome', ':server 376 test :End of MOTD'):
+        irc.feedMsg(ircmsgs.IrcMsg(l))
+    _drain()
+    # observation points (no source hooks): what setUser / the lookups / the oracle primitives did during one command
+    obs = _BOT['obs'] = {}
+    o_set, o_get, o_rm = ircdb.UsersDictionary.setUser, ircdb.UsersDictionary.getUserId, ircdb.IrcUser.removeHostmask
+    o_pw, o_cap, o_ucap = ircdb.IrcUser.checkPassword, ircdb.checkCapability, ircdb.IrcUser._checkCapability
+
+    def setUser(self, user, flush=True):
+        try:
+            return o_set(self, user, flush=flush)
+        except Exception as e:
+            obs['set_raised'] = type(e).__name__
+            raise
+
+    def getUserId(self, s):
+        obs['depth'] = obs.get('depth', 0) + 1
+        try:
+            return o_get(self, s)
+        finally:
+            obs['depth'] -= 1
+
+    def removeHostmask(self, h):
+        if obs.get('depth', 0) > 0:
+            obs['ambiguous'] = True
+        return o_rm(self, h)
+
+    def checkPassword(self, pw):
+        r = o_pw(self, pw)
+        obs['pw'] = bool(r)
+        return r
+
+    def checkCapability(hostmask, capability, *a, **k):
+        r = o_cap(hostmask, capability, *a, **k)
+        if capability == 'owner':
+            obs['owner'] = bool(r)
+        return r
+
+    def _checkCapability(self, capability, *a, **k):
+        r = o_ucap(self, capability, *a, **k)
+        if capability == 'owner':
+            obs['owner'] = bool(r)
+        return r
+    ircdb.UsersDictionary.setUser, ircdb.UsersDictionary.getUserId, ircdb.IrcUser.removeHostmask = setUser, getUserId, removeHostmask
+    ircdb.IrcUser.checkPassword, ircdb.checkCapability, ircdb.IrcUser._checkCapability = checkPassword, checkCapability, _checkCapability
+    return _BOT
+
+
+def _drain():
+    out, irc = [], _BOT['irc']
+    for _ in range(10000):
+        try:
+            irc.lastTake = 0          # the clock is frozen during a history: do not let the throttle hold replies back
+            m = irc.takeMsg()
+        except Exception as e:
+            out.append(e)
+            continue
+        if m is None:
+            break
+        out.append(m)
+    return out
+
+
+def _q(a):
+    return '"%s"' % a
+
+
+def cmd_text(c):
+    """c = [kind, a, b, pw]"""
+    kind, a, b, pw = c
+    if kind == 'add':
+        return 'hostmask add %s %s %s' % (_q(a), _q(b), _q(pw))
+    if kind == 'remove':
+        return 'hostmask remove %s %s %s' % (_q(a), _q(b), _q(pw))
+    if kind == 'identify':
+        return 'identify %s %s' % (_q(a), _q(pw))
+    if kind == 'unidentify':
+        return 'unidentify'
+    if kind == 'changename':
+        return 'changename %s %s %s' % (_q(a), _q(b), _q(pw))
+    return 'register %s %s' % (_q(a), _q(pw))
+
+
+def run_command(mods, P, c):
+    """send one User plugin command from prefix P through the live bot; returns (succeeded, observations)"""
+    ircdb, conf, ircutils = mods
+    B = bot()
+    irc, ircmsgs = B['irc'], B['ircmsgs']
+    obs = B['obs']
+    obs.clear()
+    _drain()
+    m = ircmsgs.IrcMsg(prefix=P, command='PRIVMSG', args=(irc.nick, cmd_text(c)))
+    try:
+        irc.feedMsg(m)
+    except Exception as e:
+        obs['feed_raised'] = type(e).__name__
+    out = _drain()
+    texts = [x.args[1] for x in out if hasattr(x, 'args') and len(x.args) > 1]
+    return any('The operation succeeded' in t for t in texts), dict(obs), texts
+
+
+def cmd_oracle_inputs(mods, P, c, obs):
+    """the inputs of the command model that are not part of its state: [pw_ok, owner, shape_ok, long_ok, name_ok]"""
+    ircdb, conf, ircutils = mods
+    kind, a, b, pw = c
+    subject = P if kind == 'register' else b
+    name = b if kind == 'changename' else a
+    name_ok = not ircutils.isUserHostmask(name) and name == name.strip() and not any(x in name for x in '\t\r\n')
+    return [obs.get('pw', pw == PASSWORD), obs.get('owner', False), bool(ircutils.isUserHostmask(subject)),
+            len(ircdb.unWildcardHostmask(subject)) >= 3, name_ok]
+
+
+def wire_cmd(c):
+    return [CMD_KINDS.index(c[0]), c[1], c[2]]
+
+
+def db_view(state, now, timeout):
+    """what a refused command must leave alone: accounts with name, masks, secure flag and the logins that have not expired"""
+    return sorted([i, u[0], sorted(u[1]), u[3], sorted([w, m] for (w, m) in u[2] if not (timeout and w + timeout < now))]
+                  for i, u in state[0])
+
+
+
 def gen_history(rng):
     timeout = rng.choice([0, 0, 10])
     n = rng.randint(5, 40)
@@ -162,7 +348,7 @@ def gen_history(rng):
     for _ in range(n):
         r = rng.random()
         if r < 0.12 or not known:
-            ops.append(['new'])
+            ops.append(['new', 'owner'] if rng.random() < 0.08 else ['new'])
             known.append(len(known) + 1)
         elif r < 0.40:
             i = rng.choice(known)
@@ -174,11 +360,27 @@ def gen_history(rng):
             ops.append(['auth', rng.choice(known), rng.choice(HOSTS)])
         elif r < 0.65:
             ops.append(['clear', rng.choice(known)])
-        elif r < 0.75:
+        elif r < 0.72:
             ops.append(['tick', rng.choice([1, 5, 11, 30])])
-        else:
+        elif r < 0.86:
             ops.append(['lookup', rng.choice(HOSTS)])
+        else:
+            ops.append(gen_cmd(rng, known))
     return {'timeout': timeout, 'ops': ops}
+
+
+def gen_cmd(rng, known):
+    kind = rng.choice(['add', 'add', 'add', 'remove', 'identify', 'identify', 'unidentify', 'changename', 'register'])
+    name = ('u%d' % rng.choice(known)) if known and rng.random() < 0.9 else rng.choice(NAMES)
+    pw = PASSWORD if rng.random() < 0.8 else WRONG
+    P = rng.choice(HOSTS)
+    if kind in ('add', 'remove'):
+        return ['cmd', P, [kind, name, rng.choice(CMD_MASKS if rng.random() < 0.9 else HOSTS), pw]]
+    if kind == 'changename':
+        return ['cmd', P, [kind, name, rng.choice(NAMES), pw]]
+    if kind == 'register':
+        return ['cmd', P, [kind, rng.choice(NAMES), '', pw]]
+    return ['cmd', P, [kind, name, '', pw]]
 
 
 def live_auth(u, h, now, timeout):
@@ -193,11 +395,16 @@ def recognisers_ref(state, h, now, timeout):
 def run_history(ctx, mods, hist, model=True, kind='history'):
     """returns list of failures (dicts) found by the direct oracle; also records disagreements"""
     ircdb, conf, ircutils = mods
-    users = ircdb.UsersDictionary()
-    saved_users, saved_time = ircdb.users, ircdb.time.time
+    bot()
+    users = ircdb.users          # the dictionary the plugins and ircdb.checkCapability use; emptied for every history
+    users.users.clear()
+    users._nameCache.clear()
+    users._hostmaskCache.clear()
+    users.nextId = 0
+    ircdb.ignores.hostmasks.clear()
+    saved_time = ircdb.time.time
     clock = Clock()
     clock.now = 1000
-    ircdb.users = users
     ircdb.time.time = lambda: clock.now
     timeout = hist['timeout']
     conf.supybot.databases.users.timeoutIdentification.setValue(timeout)
@@ -208,10 +415,40 @@ def run_history(ctx, mods, hist, model=True, kind='history'):
                 clock.now += o[1]
                 continue
             before = snapshot(users)
-            if o[0] == 'set' and o[2][2] is None:     # keep the account's current logins
+            hs = None
+            if o[0] == 'set':
+                hs = ircutils.IrcSet(o[2][1])
                 cur = dict((i, u) for i, u in before[0]).get(o[1])
-                o = ['set', o[1], [o[2][0], [str(m) for m in ircutils.IrcSet(o[2][1])], cur[2] if cur else [], o[2][3]]]
-            res = apply_real(mods, users, o)
+                # set iteration order is an input of the model; None = keep the account's current logins
+                o = ['set', o[1], [o[2][0], [str(m) for m in hs], (cur[2] if cur else []) if o[2][2] is None else o[2][2], o[2][3]]]
+            if o[0] == 'cmd':
+                ok, obs, texts = run_command(mods, o[1], o[2])
+                after = snapshot(users)
+                orc = cmd_oracle_inputs(mods, o[1], o[2], obs)
+                amb, via_set = bool(obs.get('ambiguous')), 'set_raised' in obs
+                steps.append((timeout, clock.now, before, o, after, ('cmd', ok, amb, via_set, orc)))
+                # ---- direct oracle: a refused command leaves the user database exactly as it was.  When a lookup inside the
+                # command ran the "Multiple matches ... Removing the offending hostmasks" branch, that removal is the documented
+                # reaction to an ambiguous hostmask, not a trace of the command: not judged here (the theorem's r_amb = false)
+                if not ok and not amb:
+                    b4, aft = db_view(before, clock.now, timeout), db_view(after, clock.now, timeout)
+                    if b4 != aft:
+                        diff = [x for x in aft if x not in b4] or [x for x in b4 if x not in aft]
+                        tgt = [u for i, u in before[0] if u[0].lower() == o[2][1].lower()]
+                        owned = o[2][0] == 'add' and any(_fold(m) == _fold(o[2][2]) for u in tgt for m in u[1])
+                        fails.append({'step': idx, 'h': o[1], 'kind': 'refused-with-trace', 'cmd': o[2][0],
+                                      'via': 'setuser' if via_set else 'other', 'owned': owned,
+                                      'detail': '%s from %s was refused (%r) but the user database changed: %r'
+                                                % (cmd_text(o[2]), o[1], texts[:1], diff[:2])})
+                if ok and o[2][0] in ('add', 'register'):
+                    for h in HOSTS:
+                        owners = [i for i, u in after[0] if any(ref_match(m, h) for m in u[1])]
+                        if len(owners) > 1:
+                            fails.append({'step': idx, 'h': h, 'kind': 'overlapping-masks',
+                                          'detail': '%s accepted: accounts %r own masks that all match %r' % (cmd_text(o[2]), owners, h)})
+                            break
+                continue
+            res = apply_real(mods, users, o, hostmasks=hs)
             after = snapshot(users)
             steps.append((timeout, clock.now, before, o, after, res))
             # ---- direct oracle ----
@@ -241,13 +478,33 @@ def run_history(ctx, mods, hist, model=True, kind='history'):
                 if u[3] and not any(ref_match(m, o[2]) for m in u[1]):
                     fails.append({'step': idx, 'h': o[2], 'kind': 'secure-login', 'detail': 'secure account logged in from a non-matching hostmask'})
     finally:
-        ircdb.users, ircdb.time.time = saved_users, saved_time
+        ircdb.time.time = saved_time
         conf.supybot.databases.users.timeoutIdentification.setValue(0)
     if model and steps:
-        outs = ctx.model([[1, [t, now, b, wire_op(o)]] for (t, now, b, o, a, r) in steps])
+        outs = ctx.model([[3, [t, now, b, o[1], wire_cmd(o[2]), r[4]]] if o[0] == 'cmd' else [1, [t, now, b, wire_op(o)]]
+                          for (t, now, b, o, a, r) in steps])
         for (t, now, b, o, a, r), mo in zip(steps, outs):
-            ctx.case(kind + '-' + o[0], {'state': b, 'op': o, 'now': now, 'timeout': t}, nontrivial=bool(b[0]))
+            ctx.case(kind + '-' + (o[0] if o[0] != 'cmd' else 'cmd-' + o[2][0]), {'state': b, 'op': o, 'now': now, 'timeout': t},
+                     nontrivial=bool(b[0]))
             if mo is None:
+                continue
+            if o[0] == 'cmd':
+                # one model step = the whole command; when a lookup of the real run hit the Multiple-matches branch the
+                # dispatcher's repeated lookups are no longer idempotent: only the flags are compared then
+                # the order in which setUser walks the edited IrcSet is not an input here; it only decides which expired
+                # logins of other accounts are dropped before a refusal: expired logins are left out of this comparison
+                def live(st):
+                    st = canon_state(st)
+                    st[0] = [[i, [u[0], u[1], [e for e in u[2] if not (t and e[0] + t < now)], u[3]]] for i, u in st[0]]
+                    return st
+                ms, mflags = live(dec_state(mo[0])), [bool(mo[1]), bool(mo[2]), bool(mo[3])]
+                rflags = [r[1], r[2], r[3]]
+                if r[2] or mflags[1]:
+                    if mflags[1] != r[2]:
+                        ctx.disagree({'history': hist, 'state': b, 'op': o, 'now': now, 'timeout': t}, mflags, rflags, 'User command (ambiguity flag)')
+                elif ms != live(a) or mflags != rflags:
+                    ctx.disagree({'history': hist, 'state': b, 'op': o, 'now': now, 'timeout': t},
+                                 [ms, mflags], [live(a), rflags], 'User command step')
                 continue
             ms, mr = canon_state(dec_state(mo[0])), wire.r(mo[1])
             if ms != canon_state(a) or mr != r:
@@ -255,7 +512,8 @@ def run_history(ctx, mods, hist, model=True, kind='history'):
                              [ms, mr], [canon_state(a), r], 'UsersDictionary step')
     else:
         for (t, now, b, o, a, r) in steps:
-            ctx.case(kind + '-' + o[0], {'state': b, 'op': o, 'now': now, 'timeout': t}, nontrivial=bool(b[0]))
+            ctx.case(kind + '-' + (o[0] if o[0] != 'cmd' else 'cmd-' + o[2][0]), {'state': b, 'op': o, 'now': now, 'timeout': t},
+                     nontrivial=bool(b[0]))
     return fails
 
 
@@ -268,10 +526,13 @@ def _overlapping_globs(inp):
     """F6: setUser's overlap test is literal.  An account was given a glob mask that has a common match with a glob mask
     of another account, or that matches a hostmask another account is logged in from (neither is equal as a string)"""
     hist = inp.get('history')
-    if not hist:
+    if not hist or inp.get('kind') == 'refused-with-trace':
         return False
     upto = hist['ops'][:inp['step'] + 1]
-    sets = [o for o in upto if o[0] == 'set']
+    # masks given by setUser through the API or by an accepted `hostmask add`
+    acct = lambda name: int(name[1:]) if re.match(r'u[0-9]+$', name) else name
+    sets = [o for o in upto if o[0] == 'set'] + [['set', acct(o[2][1]), [o[2][1], [o[2][2]]]] for o in upto if o[0] == 'cmd' and o[2][0] == 'add']
+    auths = [o for o in upto if o[0] == 'auth'] + [['auth', acct(o[2][1]), o[1]] for o in upto if o[0] == 'cmd' and o[2][0] == 'identify']
     glob = lambda m: '*' in m or '?' in m
     for a, b in itertools.combinations(sets, 2):
         if a[1] != b[1]:
@@ -280,14 +541,26 @@ def _overlapping_globs(inp):
                     if glob(m1) and glob(m2) and any(ref_match(m1, h) and ref_match(m2, h) for h in HOSTS):
                         return True
     for a in sets:
-        for o in upto:
-            if o[0] == 'auth' and o[1] != a[1] and any(glob(m) and _fold(m) != _fold(o[2]) and ref_match(m, o[2]) for m in a[2][1]):
+        for o in auths:
+            if o[1] != a[1] and any(glob(m) and _fold(m) != _fold(o[2]) and ref_match(m, o[2]) for m in a[2][1]):
                 return True
     return False
 
 
+def _edit_not_undone(inp):
+    """F23: users.setUser refused (DuplicateHostmask) what a command other than `hostmask add` had already edited on the live
+    account, and the command does not undo its edit (identify, unidentify, changename, hostmask remove, register)"""
+    return inp.get('kind') == 'refused-with-trace' and inp.get('via') == 'setuser' and inp.get('cmd') in (
+        'identify', 'unidentify', 'changename', 'remove', 'register')
+
+
+def _add_owned_mask(inp):
+    """F24: `hostmask add` of a mask the account already owns, refused by setUser for another reason: the rollback removes the mask"""
+    return inp.get('kind') == 'refused-with-trace' and inp.get('via') == 'setuser' and inp.get('cmd') == 'add' and inp.get('owned') is True
+
+
 # F5 (expired_login_cached) and F22 (login_vs_mask) are repaired: their classes are gone, their witnesses head the corpus
-CLASSES = {'overlapping_globs': _overlapping_globs}
+CLASSES = {'overlapping_globs': _overlapping_globs, 'edit_not_undone': _edit_not_undone, 'add_owned_mask': _add_owned_mask}
 
 CORPUS = [
     {'timeout': 10, 'ops': [['new'], ['set', 1, ['u1', ['zz!zz@zz'], None, False]], ['auth', 1, 'ab!x@y'], ['lookup', 'ab!x@y'],
@@ -302,6 +575,15 @@ CORPUS = [
     {'timeout': 10, 'ops': [['new'], ['set', 1, ['u1', ['zz!zz@zz'], None, False]], ['auth', 1, 'ab!x@y'], ['lookup', 'ab!x@y'],
                             ['tick', 8], ['auth', 1, 'q!q@q'], ['lookup', 'q!q@q'], ['lookup', 'ab!x@y'], ['tick', 5], ['lookup', 'ab!x@y'],
                             ['lookup', 'q!q@q']]},
+    # command layer: a refused `hostmask add` (overlap with another account's mask found by setUser) must leave no trace
+    {'timeout': 0, 'ops': [['new'], ['new'], ['set', 1, ['u1', ['ab!*@y'], None, False]], ['set', 2, ['u2', ['zz!zz@zz'], None, False]],
+                           ['cmd', 'zz!zz@zz', ['add', 'u2', '*!*@y', 'secret']], ['lookup', 'ab!x@y'], ['lookup', 'q!q@y']]},
+    # F23: identify answered with an error (setUser refuses: a mask of u1 is a hostmask u2 is logged in from) but the login stays
+    {'timeout': 0, 'ops': [['new'], ['new'], ['set', 1, ['u1', ['ab!x@y'], None, False]], ['set', 2, ['u2', [], None, False]],
+                           ['auth', 2, 'ab!x@y'], ['cmd', 'q!q@q', ['identify', 'u1', '', 'secret']], ['lookup', 'q!q@q']]},
+    # F24: hostmask add of an owned mask, refused by setUser because of another mask: the rollback removes the owned mask
+    {'timeout': 0, 'ops': [['new'], ['new'], ['set', 1, ['u1', ['ab!x@y', 'zz!zz@zz'], None, False]], ['set', 2, ['u2', [], None, False]],
+                           ['auth', 2, 'zz!zz@zz'], ['cmd', 'q!q@q', ['add', 'u1', 'ab!x@y', 'secret']]]},
     # a login from a hostmask a glob mask of another account matches, made while the hostmask is cached
     {'timeout': 10, 'ops': [['new'], ['new'], ['set', 1, ['u1', ['a*!*@*'], None, False]], ['lookup', 'ab!x@y'], ['auth', 2, 'ab!x@y'],
                             ['lookup', 'ab!x@y'], ['tick', 30], ['lookup', 'ab!x@y'], ['lookup', 'ab!x@y']]},
@@ -341,7 +623,14 @@ def run(ctx):
     for hist, kind in hists:
         for f in run_history(ctx, mods, hist, kind=kind):
             inp = {'history': hist, 'step': f['step'], 'h': f['h'], 'kind': f['kind']}
+            for k in ('cmd', 'via', 'owned'):
+                if k in f:
+                    inp[k] = f[k]
             ctx.fail(inp, f['detail'])
+
+
+def _same_failure(f, inp):
+    return ('kind' not in inp or f['kind'] == inp['kind']) and all(f.get(k) == inp.get(k) for k in ('cmd', 'via', 'owned'))
 
 
 def replay(ctx, inp):
@@ -353,7 +642,7 @@ def replay(ctx, inp):
     sub = type(ctx)(ctx.pid, ctx.tier, ctx.seed, {'model_ok': False})
     fails = run_history(sub, mods, inp['history'], model=False)
     for f in fails:
-        if 'kind' not in inp or f['kind'] == inp['kind']:
+        if _same_failure(f, inp):
             return f['detail']
     return None
 
@@ -367,10 +656,14 @@ def shrink(ctx, inp):
     def fails(ops):
         sub = type(ctx)(ctx.pid, ctx.tier, ctx.seed, {'model_ok': False})
         fs = run_history(sub, mods, {'timeout': inp['history']['timeout'], 'ops': ops}, model=False)
-        return any(f['kind'] == inp['kind'] for f in fs)
+        return any(_same_failure(f, inp) for f in fs)
     ops = shrink_seq(inp['history']['ops'], fails, budget=150)
     sub = type(ctx)(ctx.pid, ctx.tier, ctx.seed, {'model_ok': False})
-    fs = [f for f in run_history(sub, mods, {'timeout': inp['history']['timeout'], 'ops': ops}, model=False) if f['kind'] == inp['kind']]
+    fs = [f for f in run_history(sub, mods, {'timeout': inp['history']['timeout'], 'ops': ops}, model=False) if _same_failure(f, inp)]
     if not fs:
         return inp
-    return {'history': {'timeout': inp['history']['timeout'], 'ops': ops}, 'step': fs[0]['step'], 'h': fs[0]['h'], 'kind': inp['kind']}
+    out = {'history': {'timeout': inp['history']['timeout'], 'ops': ops}, 'step': fs[0]['step'], 'h': fs[0]['h'], 'kind': inp['kind']}
+    for k in ('cmd', 'via', 'owned'):
+        if k in inp:
+            out[k] = inp[k]
+    return out
